@@ -28,6 +28,7 @@ SLICES = {
     'C14': 'Regenerated every run: particle_density, mol_per_liter, tracer_diffusivity, tracer_conductivity, haven_ratio, forwarding of dimensions (GGen/FormulasC14); C14Gen: formulas and scaling laws about the generated definitions.',
     'C17': 'Regenerated every run: re-imaging and selection of find_equivalent_positions + order of the per-operation steps (GGen/FormulasC17); C17Gen: = model re-imaging, within half a cell of the image, congruent.',
     'C18': 'Regenerated every run: the +-1 wrap of _fractional_directions (GGen/FormulasC18); C18Gen: = model wrapHalf, in [-1/2, 1/2], shifted by -1, 0 or +1.',
+    'C20': 'Regenerated every run: the shape of weak_lru_cache (lru_cache keyed on weakref.ref(self), stores results only), its capacity and the list of cached methods (GGen/FormulasC20); C20Gen: every cached method is audited or the recorded known finding D14.',
     'C19': 'Regenerated every run: bins, part selection and re-basing of _split_transitions_events, interval of Trajectory.split (GGen/FormulasC19); C19Gen: half-open parts = model selection, consecutive parts disjoint and covering, re-based times in range.',
 }
 
